@@ -382,6 +382,12 @@ impl BpfObject {
     }
 }
 
+/// Verification hook H5: re-export the private eBPF key/value layouts
+#[cfg(azure_guestproxyagent_verif)]
+pub mod verif_ebpf {
+    pub use super::ebpf_obj::*;
+}
+
 // Redirector implementation for Linux platform
 impl super::Redirector {
     pub fn load_bpf_object(&self) -> Result<BpfObject> {
@@ -429,6 +435,8 @@ pub async fn update_wire_server_redirect_policy(
     redirect: bool,
     redirector_shared_state: RedirectorSharedState,
 ) {
+    #[cfg(azure_guestproxyagent_verif)]
+    crate::redirector::verif_hooks::policy("wireserver", redirect);
     if let (Ok(Some(bpf_object)), Ok(local_port)) = (
         redirector_shared_state.get_bpf_object().await,
         redirector_shared_state.get_local_port().await,
@@ -446,6 +454,8 @@ pub async fn update_imds_redirect_policy(
     redirect: bool,
     redirector_shared_state: RedirectorSharedState,
 ) {
+    #[cfg(azure_guestproxyagent_verif)]
+    crate::redirector::verif_hooks::policy("imds", redirect);
     if let (Ok(Some(bpf_object)), Ok(local_port)) = (
         redirector_shared_state.get_bpf_object().await,
         redirector_shared_state.get_local_port().await,
@@ -463,6 +473,8 @@ pub async fn update_hostga_redirect_policy(
     redirect: bool,
     redirector_shared_state: RedirectorSharedState,
 ) {
+    #[cfg(azure_guestproxyagent_verif)]
+    crate::redirector::verif_hooks::policy("hostga", redirect);
     if let (Ok(Some(bpf_object)), Ok(local_port)) = (
         redirector_shared_state.get_bpf_object().await,
         redirector_shared_state.get_local_port().await,
